@@ -118,6 +118,7 @@ Inductive pc :=
 | PWrSetMax (k : wkind) (m : nat)                      (* before MAX_LEVEL.swap        metadata.rs:749 *)
 | PWrUnlock (k : wkind)                                (* before the write guard is dropped *)
 (* ---- set_global_default *)
+| PSgCas (c : cid)                        (* holding the Dispatch: before GLOBAL_INIT.compare_exchange  dispatch.rs:341 *)
 | PSgStore (c : cid)                      (* CAS won: before GLOBAL_DISPATCH = ..  dispatch.rs:365 *)
 | PSgInit (c : cid)                       (* before GLOBAL_INIT.store(INITIALIZED) dispatch.rs:367 *)
 (* ---- Handle::reload / modify *)
@@ -307,7 +308,7 @@ Definition pc_kind (p : pc) : option wkind :=
 (** a strong reference held in a local variable of the program point *)
 Definition pc_tmp (p : pc) : option cid :=
   match p with
-  | PRgCall _ c _ _ | PWrRetCall _ c _ _ _ | PWrAskCall _ _ _ c _ _ _ | PSgStore c => Some c
+  | PRgCall _ c _ _ | PWrRetCall _ c _ _ _ | PWrAskCall _ _ _ c _ _ _ | PSgCas c | PSgStore c => Some c
   | _ => None
   end.
 Definition pc_new (p : pc) (c : cid) : bool := match pc_kind p with Some k => kind_new k c | None => false end.
@@ -376,13 +377,8 @@ Definition start_op (W : world) (s : state) (t : tid) (o : op) : state :=
       if st_handle s c then upd_thr t (set_scopes (c :: th_scopes (st_thr s t)) (st_thr s t)) s else s
   | OCloseScope => upd_thr t (set_scopes (tl (th_scopes (st_thr s t))) (st_thr s t)) s
   | OSetGlobal c =>
-      if st_handle s c then
-        (* GLOBAL_INIT.compare_exchange(UNINITIALIZED, INITIALIZING) *)
-        match st_ginit s with
-        | GUninit => goto t (PSgStore c) (set_ginit GInitializing s)
-        | _ => emit_log (EvSetGlobal t c false) s
-        end
-      else s
+      (* slot[c].clone() *)
+      if st_handle s c then goto t (PSgCas c) s else s
   | ORebuild => goto t (PWrLock KRebuild) s
   | OReload c f =>
       if st_created s c then
@@ -491,6 +487,12 @@ Definition step (W : world) (s : state) (t : tid) : option state :=
       | KReload c _ => Some (goto t PIdle (emit_log (EvReload t c (st_cell s c) true) s1))
       end
   (* ---- set_global_default *)
+  | PSgCas c =>
+      (* GLOBAL_INIT.compare_exchange(UNINITIALIZED, INITIALIZING) *)
+      match st_ginit s with
+      | GUninit => Some (goto t (PSgStore c) (set_ginit GInitializing s))
+      | _ => Some (goto t PIdle (emit_log (EvSetGlobal t c false) s))
+      end
   | PSgStore c => Some (goto t (PSgInit c) (set_gdisp (Some c) s))
   | PSgInit c => Some (goto t PIdle (emit_log (EvSetGlobal t c true) (set_ginit GInitialized s)))
   (* ---- reload *)
@@ -536,7 +538,7 @@ Definition yield_id (p : pc) : nat :=
   | PWrAskUp _ _ _ (_ :: _) _ _ => 30 | PWrAskUp _ _ _ [] _ _ => 31
   | PWrAskCall _ _ _ _ _ _ _ => 81
   | PWrNext _ _ _ => 41 | PWrSetMax _ _ => 50 | PWrUnlock _ => 19
-  | PSgStore _ | PSgInit _ => 999
+  | PSgCas _ => 70 | PSgStore _ => 71 | PSgInit _ => 72
   | PRlLock _ _ => 80 | PRlAssign _ _ | PRlUnlock _ _ => 999 | PRlGap _ _ => 82
   end.
 
